@@ -24,3 +24,14 @@ Example C04_example :
   let s := full_run r [1; 2; 3; 4; 5] ops (round_robin 3 16) in
   all_doneb s = true /\ res_cnt (tpe [1; 2; 3; 4; 5] ops) (ws s) = 9.
 Proof. vm_compute. split; reflexivity. Qed.
+
+From OrxPar Require Import MachineIter MachineIterP MasterIter.
+
+(** the same over a by-value iterator source *)
+Theorem C04_count_iter : forall (V : Type) (src : list V) (ops : list (op V)) (r : Runner)
+  (ordered : bool) (sched : list nat),
+  runner_wf r -> iall_done (imrun r (tlen src ops) ordered (@nostop) sched) ->
+  res_cnt (tpe src ops) (map wk (iws (imrun r (tlen src ops) ordered (@nostop) sched)))
+  = length (seq_chain (stages_of ops) src).
+Proof. intros V src ops r ordered sched Hw Hd. apply iter_count; assumption. Qed.
+Print Assumptions C04_count_iter.
